@@ -74,11 +74,13 @@ def r101(chk, w):
             ok = got == want
             msg = "an annotated %s boundary must add exactly one example labelled %d (its discriminant); derived (xs pushes, ys values) = %s" % (lb, discr[lb], sorted(got) if got else None)
         else:
-            ok = got == {(0, ())}
+            # no completed iteration with an Unknown label at all (the element is filtered out before the loop body) is the
+            # same guarantee: every completing path has its label decided (an undecided label is entered under all labels)
+            ok = got == {(0, ())} or (got is None and bool(table.get("NotWordBoundary")) and bool(table.get("WordBoundary")))
             msg = ("an unannotated (Unknown) boundary must contribute no example; derived (xs pushes, ys values) = %s "
                    "-- unknown boundaries are handed to the learner as a third class" % (sorted(got) if got else None))
         chk.ob("R10.1", "label(%s)" % lb, ok, msg, site=C.site(b), sample={"label": lb, "derived": [list(map(str, g)) for g in (got or [])]})
-    chk.floor("R10.1", "labels", len(table), 3)
+    chk.floor("R10.1", "labels", len(table), 2)
     # ---- R10.4 feature values count occurrences: value(feature) := value(feature) + 1 starting from 0
     it2 = absint.Interp(w, b, models=C.effects.EXTRA_MODELS, summaries=C.summaries(w))
     it2.trace_deref_stores = True
